@@ -176,7 +176,7 @@ Lemma place_file_eq k i pm c d :
     else if fallback k then f_rename (File 0 (eff pm) c) d else RErr     (* EEXIST / EXDEV: copy, or give up *)
   else f_rename (File 0 (eff (mode k)) c) d.                             (* temp file + rename: a NEW inode *)
 Proof.
-  unfold place_file, copy_or_link, copy_file. cbn [upd].
+  unfold place_file. rewrite copy_or_link_eq. unfold copy_or_link_a, copy_file_atomic. cbn [upd].
   destruct (link k), (link_ok k), d as [[j pj cj|ds|t]|], (fallback k); reflexivity.
 Qed.
 
@@ -491,7 +491,7 @@ Proof.
     + cbn [upd]. destruct (assoc b w); cbn [f_create of_R]; [discriminate|].
       intros H f Hf. injection H as <-. destruct Hf.
     + destruct (open_node (S (length w)) w (Link t)) as [c| |]; cbn [of_R]; try discriminate.
-      unfold copy_file. cbn [upd]. destruct (assoc b w) as [[j pj cj|ds|t']|]; cbn [f_rename of_R]; try discriminate;
+      rewrite copy_file_refines. unfold copy_file_atomic. cbn [upd]. destruct (assoc b w) as [[j pj cj|ds|t']|]; cbn [f_rename of_R]; try discriminate;
         intros H f Hf; injection H as <-; cbn [files In] in Hf; destruct Hf as [<-|[]]; now left.
 Qed.
 
